@@ -354,7 +354,7 @@ Activity(a) ==
   /\ phase = "idle" /\ nitem > 0 /\ runs < MaxRuns /\ a \in Acts
   /\ runs' = runs + 1
   /\ UNCHANGED <<st, lo, bst, blo, dlo, tst, tlo, cw, clw, pw, plw, phase, g, cur, rc, nblk, nitem, ntx, nops, rej, last>>
-  /\ Emit([op |-> "Act", kind |-> a])
+  /\ Emit([op |-> "Act", kind |-> a, ret |-> "same"])
 
 Next ==
   \/ \E c \in Conds : Run(c)
